@@ -507,14 +507,20 @@ where
                     )?;
                     self.private_key =
                         Some(PrivateKey::Symmetric(private_key));
-                    self.vault_meta().await
                 }
                 AccessKey::Identity(id) => {
                     self.private_key =
                         Some(PrivateKey::Asymmetric(id.clone()));
-                    self.vault_meta().await
                 }
             }
+            // Verify the key by decrypting the vault meta data, a key
+            // that does not open the vault must not stay in place
+            // otherwise later writes would be encrypted with it
+            let result = self.vault_meta().await;
+            if result.is_err() {
+                self.private_key = None;
+            }
+            result
         } else {
             Err(Error::VaultNotInit.into())
         }
